@@ -81,6 +81,10 @@ claimed = {
    text="As root the harness walks an executable and a configuration file through owner x group x all 512 modes x {direct, symlink} with real chown/chmod and calls the real cmd sensor, cmd fan and configuration validation at every point: the command's side-effect marker must grow exactly when the reference predicate holds and the file is executable, a rejected file must yield an error and leave no trace; thorough enumerates all 4096 attribute points (that sub-space exhaustively), quick samples 2048 draws. A closed loop with cmd backends has its scripts' attributes flipped between executions by environment events; every exec event is judged on the attributes in force at its check.",
    note="Runs as root. Flips never land between check and start of one execution (inherent check-then-exec window). The walk is OS-level attribute enumeration; only c18loop runs under the simulator.",
    tech="attribute-space enumeration with side-effect marker oracle + deterministic simulation with permission-flip events"),
+ "C19": dict(cat="fault_enumeration", ref="§3/C19",
+   text="Two enumerated fault spaces: (a) under the simulator, every command fault of the C09 list (start failures: not executable, bad format, vanished between permission check and start; exit codes; killed; garbage/nan/empty output; injected timeout) in every backend/curve combination with cmd components - no panic, the loop continues or the fan is restored; (b) on the REAL clock, util.SafeCmdExecution against 16 misbehaving-command modes x 4 timeouts (sleepers, SIGTERM-ignoring, grandchildren holding stdout, huge output, stderr flood, start failures) - returns within timeout + 1.5 s with the trimmed output or an error, never panics.",
+   note="Part (b) is fault injection against the real kernel without simulation: a simulated deadline cannot fire while a real child runs, and replacing exec by a model would remove the mechanism under test (stated in DESIGN.md). Margin 1.5 s, 16 cases in parallel. quick covers all 64 real-time cases and a window of (a).",
+   tech="enumerated fault injection: in-simulation command faults + real-clock timing of the real exec path"),
 }
 checks = []
 for p in props:
